@@ -1,4 +1,6 @@
 import Ledger.Proofs.CtrlImport
+import Ledger.Proofs.CtrlReplayHist
+import Ledger.Proofs.CtrlWire
 import Ledger.Proofs.CtrlExamples
 
 /-!
@@ -8,7 +10,10 @@ import Ledger.Proofs.CtrlExamples
 `replay s` = `Export` of `s` (logs in id order) then `Import` into an empty
 ledger.  The JSON wire encoding of the logs is compared on the real code by the
 `ctrlimport` workload (every exported log must survive Marshal → UnmarshalJSON).
-The round trip is FALSE on the unchanged code (same two counterexamples as C08).
+The unconditional round trip is FALSE on the unchanged code (same counterexamples
+as C08); `import_export_roundtrip` proves it for all histories under `replaySafe`,
+through the JSON wire (`wireStream`: `json.Marshal` → `HydrateLog` of every payload,
+another area's model, linked by `Ledger.C08payload.payload_decode_encode`).
 -/
 namespace Ledger.C11
 open Ledger.Ctrl Ledger.Core Ledger.Ctrl.Examples
@@ -24,6 +29,43 @@ theorem import_export_roundtrip_counterexample :
 theorem import_export_roundtrip_counterexample_dates :
     (replay (runHist true {} histDates)).2 = none ∧
     (replay (runHist true {} histDates)).1.db.accounts ≠ (runHist true {} histDates).db.accounts := by
+  decide +kernel
+
+/-- **Export → JSON → Import reproduces the ledger.**  For every sequential history
+    whose committed logs are `logSafe` (`replaySafe`): the exported stream, each
+    payload written as JSON and hydrated back (`wireStream`), imported into an empty
+    ledger at any clock, succeeds and yields exactly the source's tables.
+    The controller model keeps text and time abstract, so its payloads are embedded
+    into the byte-level payload model by `enc`/`dec` (any left-invertible embedding);
+    `hcanon` asks that the exported payloads embed as canonical values — the set on
+    which `payload_decode_encode` holds (well-formed UTF-8, normalised dates, …). -/
+theorem import_export_roundtrip (strict : Bool) (now' : Time) (ops : List Op)
+    (enc : Payload → Ledger.Log.Payload) (dec : Ledger.Log.Payload → Option Payload)
+    (hdec : ∀ p, dec (enc p) = some p)
+    (hcanon : ∀ l ∈ exportLogs (runHist strict {} ops), Ledger.Log.canonicalPayload (enc l.payload) = true)
+    (hsafe : replaySafe strict {} ops = true) :
+    ∃ stream, wireStream enc dec (exportLogs (runHist strict {} ops)) = some stream ∧
+      (importLogs now' {} stream).2 = none ∧
+      (importLogs now' {} stream).1.db = (runHist strict {} ops).db :=
+  ⟨_, wireStream_id enc dec hdec _ hcanon, replay_reproduces_safe strict now' ops hsafe⟩
+
+/-- Without the wire: `Import (Export s)` reproduces `s` (= `Ledger.C08.replay_reproduces`). -/
+theorem import_export_roundtrip_direct (strict : Bool) (now' : Time) (ops : List Op)
+    (hsafe : replaySafe strict {} ops = true) :
+    (importLogs now' {} (exportLogs (runHist strict {} ops))).2 = none ∧
+    (importLogs now' {} (exportLogs (runHist strict {} ops))).1.db = (runHist strict {} ops).db :=
+  replay_reproduces_safe strict now' ops hsafe
+
+/-- Round trip FALSE (3): `updated_at` of an account after a metadata delete is restamped. -/
+theorem import_export_roundtrip_counterexample_restamp :
+    (replay (runHist false {} histRestamp)).2 = none ∧
+    (replay (runHist false {} histRestamp)).1.db.accounts ≠ (runHist false {} histRestamp).db.accounts := by
+  decide +kernel
+
+/-- Round trip FALSE (4): a zero `accounts_volumes` row left by a balance lock is not recreated. -/
+theorem import_export_roundtrip_counterexample_locked_row :
+    (replay (runHist false {} histLocked)).2 = none ∧
+    (replay (runHist false {} histLocked)).1.db.volumes ≠ (runHist false {} histLocked).db.volumes := by
   decide +kernel
 
 /-- What holds for the divergent payload (see C08.replay_reproduces_partial). -/
